@@ -276,6 +276,38 @@ func (p c18) Run(c *core.Ctx, idx int) {
 			})
 		}
 		switch {
+		case kind == "entry" && opk == 4 && len(mparent.Lists[last.Name].Entries) >= 2 && plainKeys(pth) && r.Intn(2) == 0:
+			// two entries of one list, each selected through a Find of its own BEFORE anything is deleted, then deleted one after the
+			// other: the second selection was made for the list as it was and has to remove its own entry all the same
+			pl := mparent.Lists[last.Name]
+			var sib *dp.DNode
+			for _, e := range pl.Entries {
+				if e != mn && (sib == nil || r.Intn(2) == 0) {
+					sib = e
+				}
+			}
+			sibPth := append(append(dp.DPath{}, pth[:len(pth)-1]...), dp.Step{Name: last.Name, Key: sib.Key()})
+			if !plainKeys(sibPth) {
+				continue
+			}
+			desc = fmt.Sprintf("Delete entry %q then entry %q, both selected beforehand", pth.String(), sibPth.String())
+			model.DeleteAt(pth)
+			model.DeleteAt(sibPth)
+			removed = sibPth
+			lastDeleted = nil
+			if run(func(sel *node.Selection) error {
+				second, e := dp.FindSel(b, sibPth)
+				if e != nil || second == nil {
+					return fmt.Errorf("verif: Find(%q) = %v, %v although the node exists", dp.PathString(sibPth), second, e)
+				}
+				if e := sel.Delete(); e != nil {
+					return e
+				}
+				return second.Delete()
+			}) {
+				return
+			}
+			kind, pos = "entry", "two-held-selections"
 		case opk < 5: // delete
 			desc = fmt.Sprintf("Delete %s %s %q", kind, pos, pth.String())
 			if kind == "entry" {
